@@ -152,11 +152,28 @@ fn histories(s: &Spec) -> Vec<(&'static str, History)> {
         }
     }
     c.push(Op::Batch(batch));
-    vec![
+    // the same content with calls around it that add nothing: an explicit length set before the
+    // first write and cleared again after an empty batch, capacity reservations, empty writes
+    let mut d = vec![Op::SetLength(Some(7 + s.tlvs.len() as u16)), Op::Batch(vec![]), Op::SetLength(None), Op::Reserve(64)];
+    d.extend(a.iter().cloned());
+    d.push(Op::Write(Val::Bytes(Blob::new(0, 0))));
+    let mut e = vec![Op::SetLength(Some(0)), Op::Write(Val::Addr(s.addr.clone())), Op::SetLength(None)];
+    e.extend(a.iter().cloned());
+    let extra = if s.tlvs.iter().map(|t| t.2.len).sum::<usize>() < 6000 {
+        vec![
+            ("with_addresses+length-set-and-cleared+write_tlv", History { ctor: Ctor::WithAddr(vc, s.tr, s.addr.clone()), ops: d }),
+            ("new+length-set-and-cleared+write_tlv", History { ctor: Ctor::New(vc, fp), ops: e }),
+        ]
+    } else {
+        vec![]
+    };
+    let mut all = vec![
         ("with_addresses+write_tlv", History { ctor: Ctor::WithAddr(vc, s.tr, s.addr.clone()), ops: a }),
         ("new+write_payload(addresses)+tuples", History { ctor: Ctor::New(vc, fp), ops: b }),
         ("new+write_payload(addresses)+write_payloads", History { ctor: Ctor::New(vc, fp), ops: c }),
-    ]
+    ];
+    all.extend(extra);
+    all
 }
 
 fn judge(s: &Spec, idx: u64, rec: &mut Recorder) {
